@@ -24,9 +24,11 @@ pub(crate) fn is_not_found_error_kind(error: &std::io::Error) -> bool {
 /// It will delete directories even if their permissions would normally prevent deletion as
 /// long as the current user is the owner of them (or root).
 pub(crate) fn remove_dir_recursively(dir: &Path) -> std::io::Result<()> {
-    // A path that is itself a symlink is removed as such. Its target is never touched: it may
-    // live outside of `dir`, and both `set_permissions` and `read_dir` below would follow the link.
-    if dir.symlink_metadata()?.file_type().is_symlink() {
+    // A path that is not a directory (a symlink, a plain file) is removed as such. A symlink's
+    // target is never touched: it may live outside of `dir`, and both `set_permissions` and
+    // `read_dir` below would follow the link. A file is unlinked without changing its permissions
+    // first: they belong to the inode, which may have other names (hard links) outside of `dir`.
+    if !dir.symlink_metadata()?.file_type().is_dir() {
         return fs::remove_file(dir);
     }
 
